@@ -1,7 +1,7 @@
 """Modular use of the Gregorian fast path through the calendar interface contract.
 
 _GregorianYearMonthDayCalculator._get_gregorian_year_month_day_calendar_from_days_since_epoch(days) is proved (on the
-real Gregorian tables, contracts/c01_calendars.py: "[ISO] fast path ...") to return the ISO date of day number `days`
+real Gregorian tables, contracts/c01_calendars.py: "[ISO] Gregorian fast-path day -> date", a ground obligation over every day of the range) to return the ISO date of day number `days`
 and to raise ValueError outside the ISO range.  In proofs over CAL the ISO calendar is an abstract calendar with
 ordinal 0 (gens.IsoAbsCalG); this model states that contract in terms of that abstract calendar."""
 
